@@ -891,7 +891,10 @@ class Pipeline:
             return False
         ctx.validated += 1
         for fl in v["flags"]:
-            self.flag(fl, ji)
+            if fl == "exact-tie-split-by-floating-point":      # benign: the sampled action is still a maximiser
+                ctx.count("value_based_steps_with_exact_tie_split_by_floats")
+            else:
+                self.flag(fl, ji)
         out = self.outs[ji].get("out", {})
         # returns of the roll-out's own reward sequence (Policy.calc_returns on SimulationResult.reward)
         if role == "steps" and "returns" in out:
